@@ -727,8 +727,8 @@ func (e *env) exec(op string) string {
 		id, err := e.bw.Flush(context.Background())
 		e.bw.Close()
 		e.bw = nil
-		if errors.Is(err, tsdb.ErrNoSeriesAppended) {
-			return "err-empty"
+		if errors.Is(err, tsdb.ErrNoSeriesAppended) || (err == nil && id == (ulid.ULID{})) {
+			return "err-empty" // nothing appended: no block is produced (Flush returns the zero ULID)
 		}
 		if err != nil {
 			return "err"
